@@ -224,10 +224,10 @@ def _classes(case):
 SUBCHECKS = [
     SubCheck("vincinv_endpoint", check_vincinv, strategy=inv_cases(), nontrivial=_nt, classes=_classes, quick=1500, thorough=60000,
              shards_quick=3, shards_thorough=12, seq_groups=[["from"], ["to"], ["lat2", "lon2"], ["lit"]],
-             rule="GET /vincinv == vincinv on the same arguments, HP conversion iff dms, all 9 type combinations; sequences vary only the types"),
+             fresh=(8, 64, 3), rule="GET /vincinv == vincinv on the same arguments, HP conversion iff dms, all 9 type combinations; sequences vary only the types"),
     SubCheck("vincdir_endpoint", check_vincdir, strategy=dir_cases(), nontrivial=_nt, classes=_classes, quick=1500, thorough=60000,
              shards_quick=3, shards_thorough=12, seq_groups=[["from"], ["to"], ["ell_dist"], ["lit"]],
-             rule="GET /vincdir == vincdir on the same arguments, HP conversion iff dms, all 9 type combinations"),
+             fresh=(8, 64, 3), rule="GET /vincdir == vincdir on the same arguments, HP conversion iff dms, all 9 type combinations"),
     SubCheck("index_route", check_index, enumerate=enumerate_index, shards_quick=1, shards_thorough=1, exhaustive="both",
              rule="GET / lists every routed endpoint (complete: the URL map is enumerated)"),
 ]
